@@ -47,6 +47,7 @@ int vnaproperty_import_yaml_from_file(vnaproperty_t **rootptr, FILE *fp,
     yaml_document_t document;
     bool delete_document = false;
     yaml_node_t *root;
+    vnaproperty_t *new_root = NULL;
 
     (void)memset((void *)&vyml, 0, sizeof(vyml));
     vyml.vyml_filename = filename;
@@ -70,14 +71,21 @@ int vnaproperty_import_yaml_from_file(vnaproperty_t **rootptr, FILE *fp,
 		"%s error: empty YAML document", vyml.vyml_filename);
 	goto error;
     }
-    if (vnaproperty_delete(rootptr, ".") == -1) { /* replace existing content */
-	_vnaproperty_yaml_error(&vyml, VNAERR_SYSTEM,
-		"vnaproperty_delete: %s", strerror(errno));
+
+    /*
+     * Build the new tree detached from *rootptr and install it only
+     * after the whole document has been imported so that a failed
+     * import leaves the caller's tree as it was.
+     */
+    if (_vnaproperty_yaml_import(&vyml, &new_root, (void *)root) == -1) {
+	int saved_errno = errno;
+
+	_vnaproperty_free_tree(&new_root);
+	errno = saved_errno;
 	goto error;
     }
-    if (_vnaproperty_yaml_import(&vyml, rootptr, (void *)root) == -1) {
-	goto error;
-    }
+    _vnaproperty_free_tree(rootptr);	/* replace existing content */
+    *rootptr = new_root;
     yaml_document_delete(&document);
     return 0;
 
